@@ -9,6 +9,7 @@ import (
 )
 
 type TypeX struct {
+	Args []*TypeX // type arguments of a generic named type
 	Kind string // "name", "ptr", "slice", "map", "arr"
 	Pkg  string
 	Name string
@@ -266,11 +267,42 @@ func (p *sparser) typ() (*TypeX, error) {
 			if n.k != "id" {
 				return nil, fmt.Errorf("bad qualified type in %q", p.src)
 			}
-			return &TypeX{Kind: "name", Pkg: t.s, Name: n.s}, nil
+			tx := &TypeX{Kind: "name", Pkg: t.s, Name: n.s}
+			return p.typeArgs(tx)
 		}
-		return &TypeX{Kind: "name", Name: t.s}, nil
+		return p.typeArgs(&TypeX{Kind: "name", Name: t.s})
 	}
 	return nil, fmt.Errorf("bad type at %q in %q", t.s, p.src)
+}
+
+// typeArgs parses an optional [T1, T2] instantiation after a type name.
+func (p *sparser) typeArgs(tx *TypeX) (*TypeX, error) {
+	if !p.isOp("[") {
+		return tx, nil
+	}
+	// only treat as type arguments when followed by a type-looking token and closed by ] (not an index expression)
+	save := p.p
+	p.next()
+	for {
+		a, err := p.typ()
+		if err != nil {
+			p.p = save
+			return tx, nil
+		}
+		tx.Args = append(tx.Args, a)
+		if p.isOp(",") {
+			p.next()
+			continue
+		}
+		break
+	}
+	if !p.isOp("]") {
+		p.p = save
+		tx.Args = nil
+		return tx, nil
+	}
+	p.next()
+	return tx, nil
 }
 
 var binPrec = map[string]int{
